@@ -29,6 +29,20 @@ ASSUMPTIONS = ["harness queues have queue.Queue semantics for the operations the
 FLOORS = {}
 SHARDS = {"quick": 12, "thorough": 14}
 CASE_FUEL = None
+HYP_SHRINK = True
+WALL_GUARD = {"quick": 1500, "thorough": 8 * 3600}
+
+
+def shard_setup(shard, nshards):
+    from . import poolcases
+    poolcases.pin_shard(shard, nshards)
+
+
+def minimize(case, sig):
+    if case.get("kind") == "pool":
+        from . import c04_sched
+        return c04_sched.minimize(case, sig)
+    return case
 
 
 class Boom(Exception):
